@@ -1160,6 +1160,9 @@ func (r *Run) refuteByPropagation(p Pred) bool {
 	}
 	r.propagate()
 	refuted := r.poisonKind == "abort"
+	if !refuted && r.poisonKind == "" {
+		refuted = r.linearRefute()
+	}
 	// restore
 	r.poisonKind, r.poisonMsg = "", ""
 	for _, k := range addedKeys {
@@ -1174,6 +1177,111 @@ func (r *Run) refuteByPropagation(p Pred) bool {
 	r.propDone, r.propSigma, r.propUnstable = propDone, propSigma, unstable
 	r.witnessOK = wOK
 	return refuted
+}
+
+// linearRefute decides the LINEAR part of the current path by Gaussian elimination over GF(q)
+// (exact modular arithmetic, done here and not by the solver: z3 and cvc5 answer `unknown` on
+// inconsistent systems of three linear congruences in two unknowns modulo a 256-bit prime, see
+// DESIGN §12.1): the linear equalities of the path are solved for one variable each; the path is
+// contradictory if an equality reduces to a non-zero constant or a linear disequality reduces to
+// 0 ≢ 0. Non-linear literals are ignored (sound: a contradiction among a subset of the literals
+// refutes the whole path).
+func (r *Run) linearRefute() bool {
+	var eqs, neqs []*Poly
+	var collect func(p Pred, positive bool)
+	collect = func(p Pred, positive bool) {
+		switch v := p.(type) {
+		case pEqZ:
+			q := v.p
+			if len(r.sigma) > 0 {
+				q = r.normPoly(q)
+			}
+			if !q.isLinear() {
+				return
+			}
+			if positive {
+				eqs = append(eqs, q)
+			} else {
+				neqs = append(neqs, q)
+			}
+		case pNot:
+			collect(v.x, !positive)
+		case pAnd:
+			if positive {
+				for _, x := range v.xs {
+					collect(x, true)
+				}
+			}
+		case pOr:
+			if !positive {
+				for _, x := range v.xs {
+					collect(x, false)
+				}
+			}
+		}
+	}
+	for _, p := range r.path {
+		collect(p, true)
+	}
+	if len(eqs) == 0 || len(eqs) > 400 {
+		return false
+	}
+	// triangularise: solved[id] = expression over the remaining variables
+	order := []int{}
+	solved := map[int]*Poly{}
+	reduce := func(p *Poly) *Poly {
+		for _, id := range order {
+			if _, has := p.t[itoa(id)]; has {
+				p = p.subst(id, solved[id], r.q)
+			}
+		}
+		return p
+	}
+	for _, e := range eqs {
+		e = reduce(e)
+		if e.isZero() {
+			continue
+		}
+		if e.isConst() {
+			return true // 0 ≡ c with c ≢ 0
+		}
+		// solve for the variable with the largest id
+		best := -1
+		for m := range e.t {
+			if m == "" {
+				continue
+			}
+			if v := monoVars(m)[0]; v > best {
+				best = v
+			}
+		}
+		c := e.t[itoa(best)]
+		inv := new(big.Int).ModInverse(c, r.q)
+		if inv == nil {
+			continue
+		}
+		rest := &Poly{t: map[string]*big.Int{}}
+		for m, cc := range e.t {
+			if m != itoa(best) {
+				rest.t[m] = cc
+			}
+		}
+		expr := rest.scale(new(big.Int).Neg(inv), r.q)
+		// keep the triangular system reduced: substitute into earlier solutions
+		for _, id := range order {
+			if _, has := solved[id].t[itoa(best)]; has {
+				solved[id] = solved[id].subst(best, expr, r.q)
+			}
+		}
+		solved[best] = expr
+		order = append(order, best)
+	}
+	for _, n := range neqs {
+		if reduce(n).isZero() {
+			return true // a disequality whose left side is forced to 0
+		}
+	}
+	return false
 }
 
 // pathWitness returns an assignment satisfying the current path and all genericity
